@@ -1,16 +1,13 @@
-// C01 / C02 -- OBSERVED, NOT REPAIRED, outside every unit.  After the redo repair (e6a8d40) a
-// differential crash probe (random INSERT/UPDATE/DELETE as autocommit, committed session, rolled-back
-// session or session left open at the crash; mem::forget = crash; reopen; compare with a model of
-// the committed statements) still loses committed work in about every fourth round when several
-// crash cycles follow each other and an earlier cycle ended with an open transaction.  Smallest
-// replay found (fails on the pinned and on the repaired tree: row 0 is missing after the 2nd crash).
-// Suspects, none confirmed: redo re-executes INSERTs through DmlExecutor::insert, which hands out
-// NEW row ids, while UPDATE/DELETE/undo records address rows by the LOGGED row ids; transaction ids
-// are re-issued after a crash (page zero's counter is only as fresh as the last checkpoint) and the
-// recovery transaction's BEGIN is logged before the analysis reads the log.
-// Also not repaired (needs a notion of open transactions the pager does not have): Pager::flush
-// writes the uncommitted pages of open transactions and then drops the whole log.
-// Goes into crates/axmos-db/src/tests/mod.rs.
+// C01 -- "committed work survives a crash", also across several crash cycles: recovery replays a
+// logged INSERT through DmlExecutor::insert with the row's LOGGED row id (the id column is among the
+// supplied columns), but the table's row-id counter was advanced from the stale catalog value by one
+// per replayed row.  With a gap in the logged ids (a rolled-back INSERT in between) the counter ended
+// up BELOW the highest stored id; the next INSERT after the recovery was handed an id that was taken,
+// DmlExecutor::insert found a live row under that key and silently kept it -- the INSERT returned
+// success and stored nothing.  Goes into crates/axmos-db/src/tests/mod.rs; FAILS before the fix
+// (row 0 is missing).  mem::forget = crash.
+// Not repaired (needs a notion of open transactions the pager does not have): Pager::flush writes the
+// uncommitted pages of open transactions and then drops the whole log.
 #[test]
 fn c01_committed_work_survives_repeated_crashes_with_open_transactions() {
     let (dir, path) = temp_db_path();
